@@ -103,13 +103,17 @@ def compute(tier, d):
                 bar = p_.index("|")
                 for name, v in zip(FLAGS, p_[2:bar]):
                     recs[i][name] = v == "1"
+                recs[i]["n_lines"] = int(p_[bar - 1])
                 recs[i]["changed"] = [int(x) for x in p_[bar + 1 :]]
             elif p_[0] == "I":
                 o["init_kinds_ok"] = p_[2] == "1"
+                o["n_lines_init"] = int(p_[3])
             elif p_[0] == "S":
                 o.setdefault("sync", []).append((p_[1], p_[2] == "1"))
             elif p_[0] == "E":
                 o["end_ok"] = p_[1] == "1"
+                o["run_c01"], o["run_c02_eq"], o["run_c02_sub"] = (p_[2] == "1", p_[3] == "1", p_[4] == "1")
+                o["n_lines_final"] = int(p_[5])
         try:
             os.unlink(j["trace_path"])
         except OSError:
